@@ -97,6 +97,10 @@ def run(res, tier, rng, table_diffs=()):
     ftd = gen2.failure_then_declaration_sessions() + gen2.declare_then_fail_sessions()
     sessions += ftd
     reqs += ["session 100000 " + " ".join(hx(l) for l in s) for s in ftd]
+    leak = gen2.failed_scope_leak_sessions()
+    leak_at = len(sessions)
+    sessions += [x[0] for x in leak]
+    reqs += ["session 100000 " + " ".join(hx(l) for l in x[0]) for x in leak]
     sessions += never_written
     reqs += ["session 100000 " + " ".join(hx(l) for l in s) for s in never_written]
     sessions += deep
@@ -116,6 +120,16 @@ def run(res, tier, rng, table_diffs=()):
                 reported += 1
                 res.violation("a session crashed or corrupted the heap", dict(kind="crash", input=s, impl=i, model=m))
             continue
+        if leak_at <= si < leak_at + len(leak):
+            res.count("scope-leak-session")
+            exp = leak[si - leak_at][1]
+            got = [o.split(" | ")[0] for o in io.split(" ;; ")]
+            wrong = [k for k, (e, g) in enumerate(zip(exp, got)) if e is not None and e != g]
+            if wrong and reported < 6:
+                reported += 1
+                res.violation("a line rejected by the compiler changed the meaning of later lines (a name only it declared is visible, or a global it shadowed lost its value)",
+                              dict(kind="scope-leak", input=s, line=s[wrong[0]], expected=exp[wrong[0]], impl=got[wrong[0]], all=got))
+                continue
         if io != m:
             if reported < 4:
                 reported += 1
@@ -185,6 +199,13 @@ def replay(res, rp):
     m = core.model([q])[0]
     print("impl :", i[:500])
     print("model:", m[:500])
+    if rp.get("kind") == "scope-leak":
+        got = [o.split(" | ")[0] for o in i.split(" # ")[0].split(" ;; ")]
+        k = s.index(rp["line"]) if rp["line"] in s else -1
+        if k < 0 or got[k] != rp["expected"] or i.split(" # ")[0] != m:
+            print("VIOLATION property=C17 replay=replay")
+            return 1
+        return 0
     if rp.get("kind") == "concat":
         c = core.impl(["eval 100000 " + hx(rp["program"])])[0]
         print("single:", c[:300])
